@@ -30,8 +30,8 @@ CHECKS = {
    technique="Lean 4 proof (decide over regenerated finite tables lifted by list lemmas; batching induction) + exhaustive differential correspondence through the CLI",
    design="§6-C08"),
  "C07": dict(
-   text="Theorems: for every list of well-formed ids (any length) the scheduler-side reader recovers exactly the ids gwf renders — Slurm afterok:a:b (read_render_slurm), SGE -hold_jid a,b (read_render_sge), local task ids; no prerequisites ⇒ no flag; LSF done() conjunctions as kernel-checked instances; for any digit string the id stored from 'digits\\n' (sbatch --parsable, qsub -terse) is the digits, newline stripped, and well-formed (parseId_slurm_sge); a target with a backend state is tracked and an accepted submission tracks the returned id, so the prerequisite ids are exactly the tracked ids of the named dependencies (prereq_ids_exact); for EVERY reachable state of an abstract scheduler with afterok/done semantics a started job's prerequisites all completed, with hold semantics they all left the queue (no_early_start_afterok / _hold, inductive invariant over all label sequences).",
-   note=CLI_NOTE + "The abstract scheduler (Sch.clStep) encodes the documented semantics of afterok, -hold_jid and done(); real schedulers are not available (trusted). The general LSF read∘render theorem is not proved (instances only, partial). Local pool: a fake pool server records the real client's enqueue messages; the scheduler side is the C11 trace engine.",
+   text="Theorems: for every list of well-formed ids (any length) the scheduler-side reader recovers exactly the ids gwf renders — Slurm afterok:a:b (read_render_slurm), SGE -hold_jid a,b (read_render_sge), LSF -w 'done(a) && done(b)' (read_render_lsf), local task ids; no prerequisites ⇒ no flag; for any digit string the id stored from 'digits\\n' (sbatch --parsable, qsub -terse) is the digits, newline stripped, and well-formed (parseId_slurm_sge), and from 'Job <digits>…' whatever follows it is the digits (parseId_lsf); a target with a backend state is tracked and an accepted submission tracks the returned id, so the prerequisite ids are exactly the tracked ids of the named dependencies (prereq_ids_exact); for EVERY reachable state of an abstract scheduler with afterok/done semantics a started job's prerequisites all completed, with hold semantics they all left the queue (no_early_start_afterok / _hold, inductive invariant over all label sequences).",
+   note=CLI_NOTE + "The abstract scheduler (Sch.clStep) encodes the documented semantics of afterok, -hold_jid and done(); real schedulers are not available (trusted). Local pool: a fake pool server records the real client's enqueue messages; the scheduler side is the C11 trace engine.",
    technique="Lean 4 proof (string splitting lemmas, inductive invariant of an abstract scheduler LTS) + CLI history correspondence on four backends + TrackingBackend id tests + pool trace validation",
    design="§6-C07"),
  "C19": dict(
